@@ -9,7 +9,7 @@ from .. import rfa_common as R
 from ..core import frac, floats
 
 ID = "C05"
-MODULES = ["TWV.Properties.C05", "TWV.Properties.C05Run", "TWV.Tie.Funfit"]
+MODULES = ["TWV.Properties.RfaImp", "TWV.Properties.C05", "TWV.Properties.C05Run", "TWV.Tie.Funfit"]
 TRANSLATORS = ["t1_funfit"]
 RULE = ("random cases over the four window strategies (70%) and pc / cubic (30%): series with many ties between neighbouring "
         "averages (values from a small alphabet) and constant series, uniform / non-uniform, integer / float x, n in 2..24 "
@@ -140,6 +140,8 @@ def tags(c, io, mo):
                     break
     if R.unmodelled(mo):
         t.append("unmodelled")
+    elif R.closed_form_unmodelled(mo):
+        t.append("overlapping-windows:imperative-model-only")
     if "err" in io:
         t.append(f"error={io['err']}")
     return t
